@@ -75,7 +75,8 @@ let field_of_reply (r : reply) : string =
     | BWire w -> "W" ^ field_of_str w
     | BCapa -> "C"
     | BFail -> "F"
-    | BPanic -> "PANIC" in
+    | BPanic -> "PANIC"
+    | BRaw w -> "X" ^ field_of_str w in
   (if r.r_ok then "+" else "-") ^ "/" ^ toks ^ "/" ^ body
 
 let is_int s = s <> "" && (let ok = ref true in String.iteri (fun i c -> if not ((c >= '0' && c <= '9') || (i = 0 && c = '-' && String.length s > 1)) then ok := false) s; !ok)
@@ -96,6 +97,7 @@ let reply_of_field (f : string) : reply option =
           | 'W' -> Some (BWire (fstr (String.sub body 1 (String.length body - 1))))
           | 'C' -> Some BCapa
           | 'F' -> Some BFail
+          | 'X' -> Some (BRaw (fstr (String.sub body 1 (String.length body - 1))))
           | _ -> None in
       (match b with
        | None -> None
